@@ -423,7 +423,27 @@ func genDefect(t *rapid.T) Case {
 		}
 		k := rapid.IntRange(0, dims-1).Draw(t, "dim")
 		last := append([]model.F{}, ring[len(ring)-1]...)
-		last[k] = model.Of(last[k].V() + float64(rapid.SampledFrom([]int{1, -1, 100}).Draw(t, "delta")))
+		if rapid.Bool().Draw(t, "bigdelta") {
+			last[k] = model.Of(last[k].V() + float64(rapid.SampledFrom([]int{1, -1, 100}).Draw(t, "delta")))
+		} else {
+			// the closing point misses the start by a hair: one to a few units in the last
+			// place, or a small relative error (a reprojected or re-rounded ring)
+			v := last[k].V()
+			switch steps := rapid.SampledFrom([]int{1, -1, 2, -2, 3, 4, -4, 8, 0, 0}).Draw(t, "ulps"); {
+			case steps != 0:
+				for ; steps > 0; steps-- {
+					v = math.Nextafter(v, math.Inf(1))
+				}
+				for ; steps < 0; steps++ {
+					v = math.Nextafter(v, math.Inf(-1))
+				}
+			case v != 0:
+				v *= 1 + rapid.SampledFrom([]float64{1e-15, -1e-15, 1e-12, 1e-9, -1e-9, 1e-6}).Draw(t, "rel")
+			default:
+				v = rapid.SampledFrom([]float64{1e-300, -1e-300, 1e-15, 5e-324}).Draw(t, "abs")
+			}
+			last[k] = model.Of(v)
+		}
 		ring = append(append([][]model.F{}, ring[:len(ring)-1]...), last)
 		r.set(ring)
 	case "short-ring":
